@@ -178,6 +178,17 @@ package parse
 //@   assert @mapupdate:map[string]*sysl.Application [app-created-only-when-absent] !in(mapkey, maptarget)
 //@   assert @mapupdate:map[string]*sysl.Endpoint [endpoint-created-only-when-absent] !in(mapkey, maptarget) || maptarget[mapkey] == nil
 //@   assert @mapupdate:map[string]*sysl.Type [type-created-only-when-absent] !in(mapkey, maptarget)
+// C02 / C04: the statements an endpoint already has are never thrown away by a later declaration of the same endpoint
+// (an event declared after its subscribers, an endpoint re-opened in another block): its statement list is created
+// when there is none and otherwise only extended.
+//@   assert @store:F.sysl.Endpoint.Stmt [endpoint-statements-never-discarded] len(stored) >= len(target.Stmt)
+
+// Re-opening an application keeps what earlier blocks declared about it: the display name is assigned only from a
+// display name that this very header carries (a header without one leaves the recorded name alone).
+//@ func (*TreeShapeListener).EnterName_with_attribs
+//@   maypanic
+//@   mark @after:grammar.(*Name_with_attribsContext).QSTRING#1 q
+//@   assert @store:F.sysl.Application.LongName [display-name-only-from-this-header] at("q", callresult) != nil
 
 // A subscription records its call on the event endpoint that the publisher's Endpoints map holds under the event's
 // name (creating application and endpoint only when absent), never on a detached endpoint.
